@@ -475,6 +475,7 @@ type Contract struct {
 	Opaque     bool // never inline, havoc
 	Iface      bool // contract for an interface method
 	GhostCalls []Clause
+	Records    []Clause // history tokens: uninterpreted predicates asserted of the call's arguments/results (assumed at call sites, nothing to check)
 	Uses       []string // axioms to include when verifying this function
 	Implements []string // pkg.Iface.Method interface contracts this function must satisfy
 	Probes     []LetDef // replay probes: named spec expressions evaluated in the entry state
@@ -534,7 +535,7 @@ type SpecFile struct {
 	Lemmas    []*Lemma
 }
 
-var keywordRe = regexp.MustCompile(`^(package|func|interface|requires|ensures|assigns|invariant|decreases|loop|pure|pred|axiom|ghost|nopanic|let|letold|reads|trusted|callback|cb_requires|cb_ensures|cb_assigns|cb_pure|inline|opaque|modifies|implements|lemma|call|assert|probe|uses)\b`)
+var keywordRe = regexp.MustCompile(`^(package|func|interface|requires|ensures|assigns|invariant|decreases|loop|pure|pred|axiom|ghost|nopanic|let|letold|reads|trusted|callback|cb_requires|cb_ensures|cb_assigns|cb_pure|inline|opaque|modifies|implements|lemma|call|assert|probe|uses|records)\b`)
 
 var labelRe = regexp.MustCompile(`^\[([A-Za-z0-9_./-]+)\]\s*`)
 
@@ -675,6 +676,12 @@ func ParseSpecFile(path string, data []byte, defaultPkg string) (*SpecFile, erro
 			sf.Contracts = append(sf.Contracts, cur)
 			curLoop = nil
 			curCB = nil
+		case "records":
+			cl, err := mkClause(s)
+			if err != nil {
+				return nil, err
+			}
+			cur.Records = append(cur.Records, cl)
 		case "requires", "ensures", "invariant", "decreases", "cb_requires", "cb_ensures":
 			if cur == nil {
 				return nil, fmt.Errorf("%s:%d: %s outside func", path, s.line, s.kw)
